@@ -110,7 +110,10 @@ var classes = map[string]*classDef{
 		{"es256", jwt.ES256Template}}},
 	"stream": {name: "stream", ptypes: "R", tmpls: []tmpl{
 		{"gcmhkdf", streamingaead.AES128GCMHKDF4KBKeyTemplate},
-		{"ctrhmacstream", streamingaead.AES128CTRHMACSHA256Segment4KBKeyTemplate}}},
+		{"ctrhmacstream", streamingaead.AES128CTRHMACSHA256Segment4KBKeyTemplate},
+		// other key sizes: the header length differs (1+keysize+7), so a keyset can mix header lengths
+		{"gcmhkdf256", streamingaead.AES256GCMHKDF4KBKeyTemplate},
+		{"ctrhmacstream256", streamingaead.AES256CTRHMACSHA256Segment4KBKeyTemplate}}},
 	"prf": {name: "prf", ptypes: "R", logs: true, tmpls: []tmpl{
 		{"hmacprf", prf.HMACSHA256PRFKeyTemplate}, {"hkdfprf", prf.HKDFSHA256PRFKeyTemplate},
 		{"cmacprf", prf.AESCMACPRFKeyTemplate}}},
